@@ -93,6 +93,8 @@ func (dm *DMap) atomicIncrDecr(cmd string, e *env, delta int) (int, error) {
 			dm.s.log.V(3).Printf("[ERROR] Failed to release the fine grained lock for key: %s on DMap: %s: %v", e.key, e.dmap, err)
 		}
 	}()
+	// The order of the writes is the order in which the key lock is taken.
+	e.timestamp = time.Now().UnixNano()
 
 	current, ttl, err := dm.loadCurrentAtomicInt(e)
 	if err != nil {
@@ -181,6 +183,8 @@ func (dm *DMap) getPut(e *env) (storage.Entry, error) {
 			dm.s.log.V(3).Printf("[ERROR] Failed to release the lock for key: %s on DMap: %s: %v", e.key, e.dmap, err)
 		}
 	}()
+	// The order of the writes is the order in which the key lock is taken.
+	e.timestamp = time.Now().UnixNano()
 
 	entry, err := dm.Get(e.ctx, e.key)
 	if errors.Is(err, ErrKeyNotFound) {
@@ -254,6 +258,8 @@ func (dm *DMap) atomicIncrByFloat(e *env, delta float64) (float64, error) {
 			dm.s.log.V(3).Printf("[ERROR] Failed to release the fine grained lock for key: %s on DMap: %s: %v", e.key, e.dmap, err)
 		}
 	}()
+	// The order of the writes is the order in which the key lock is taken.
+	e.timestamp = time.Now().UnixNano()
 
 	var current float64
 	entry, err := dm.Get(e.ctx, e.key)
